@@ -11,7 +11,7 @@ from botocore.exceptions import (
     ResponseStreamingError,
 )
 
-RESERVED = {'site', 'nth', 'when', 'exc', 'at', 'id', 'amount', 'short', 'sticky',
+RESERVED = {'site', 'nth', 'when', 'exc', 'at', 'id', 'amount', 'short', 'sticky', 'partial',
             'points', 'reenter', 'note'}
 
 
@@ -20,7 +20,7 @@ class SimFault(Exception):
 
 
 RETRYABLE_KINDS = ('timeout', 'conn', 'readtimeout', 'incomplete', 'streaming')
-FATAL_KINDS = ('client', 'value', 'simfault', 'eio', 'permission', 'runtime')
+FATAL_KINDS = ('client', 'value', 'simfault', 'eio', 'permission', 'runtime', 'kbi')
 
 
 def make_exc(kind, fid):
@@ -51,6 +51,14 @@ def make_exc(kind, fid):
     elif kind == 'permission':
         # an OSError that is neither a ConnectionError nor a timeout
         e = PermissionError(errno.EACCES, 'injected %s' % fid)
+    elif kind == 'blockingio':
+        # a non-blocking pipe that is full: raised AFTER part of the data was
+        # accepted (characters_written is filled in by the stream stub)
+        e = BlockingIOError(errno.EAGAIN, 'injected %s' % fid, 0)
+    elif kind == 'kbi':
+        # Ctrl-C delivered while the main thread executes a request itself
+        # (use_threads=False: everything runs on the caller's thread)
+        e = KeyboardInterrupt('injected %s' % fid)
     elif kind == 'simfault':
         e = SimFault('injected %s' % fid)
     elif kind == 'runtime':
